@@ -111,6 +111,7 @@ type violation struct {
 	Reason  string
 	Replay  string
 	NoInput bool
+	Unit    string // function under contract the obligation belongs to
 }
 
 func cmdCheck(args []string) int {
@@ -340,7 +341,7 @@ func cmdCheck(args []string) int {
 				continue
 			}
 			rp := writeReplay(cx, replayDir, *prop, ur, r)
-			v := violation{Obl: o.ID, Reason: r.Status, Replay: rp, NoInput: true}
+			v := violation{Obl: o.ID, Reason: r.Status, Replay: rp, NoInput: true, Unit: ur.Name}
 			if r.Status == "sat" {
 				if confirmed := tryReplay(cx, *prop, ur, r, rp); confirmed {
 					v.NoInput = false
@@ -370,6 +371,9 @@ func cmdCheck(args []string) int {
 		os.MkdirAll(filepath.Join(verifRoot, "obligations"), 0o755)
 		os.WriteFile(filepath.Join(verifRoot, "obligations", *prop+".claims"), []byte("# obligations that must be generated and discharged for "+*prop+" (safe:/frame:/cover: obligations and further instances #n of a listed clause are all required to discharge too, whatever their number)\n"+strings.Join(ids, "\n")+"\n"), 0o644)
 	}
+	// a failed obligation without a replayable model: look for a concrete failing input by executing the probes
+	// registered for the function (in-package tests with an executable oracle, run on the real code through -overlay)
+	probesRun := runProbes(cx, *prop, viols)
 	// bounded stand-ins and thorough extras
 	var boundedOut []any
 	if len(meta.Bounded) > 0 {
@@ -446,6 +450,7 @@ func cmdCheck(args []string) int {
 				"inlined_callees":          sortedKeys(inlined),
 				"havoced_repo_calls":       sortedKeys(havocCalls),
 				"bounded":                  boundedOut,
+				"replay_probes_run":        probesRun,
 				"vacuity":                  map[string]any{"cover_obligations": covers},
 				"known_findings_reported":  findingsOut,
 				"samples":                  samples,
